@@ -30,6 +30,9 @@ def gen(rng, n, tier):
             for key in ("freq", "missed"): hd[key] = [x * tiny for x in hd[key]]
             hd["err2"] = [x * tiny * tiny for x in hd["err2"]]
             h = [[k, v] for k, v in hd.items()]
+        if rng.random() < 0.15:      # tracking of missed values switched off (integer histograms divided afterwards: C06-m8)
+            hd = sx.rec(h); hd["keep"] = "F"; hd["missed"] = [0 for _ in hd["missed"]]
+            h = [[k, v] for k, v in hd.items()]
         ops = []
         for _ in range(rng.choice([1, 1, 2, 3, 5])):
             r = rng.random()
